@@ -3,7 +3,8 @@ from .. import numeric
 
 ID = "C13"
 T_GEN = ["RipassoGen.v"]
-T_FILES = ["Generated/RipassoGen", "Numeric/RipassoFacts", "Props/C13"]
+T_FILES = ["Generated/RipassoGen", "Numeric/RipassoFacts", "Numeric/DFT", "Props/C13", "Props/C13d"]
+PROPS_FILES = ["C13", "C13d"]
 ALLOWED_AXIOMS = ["ClassicalDedekindReals.sig_forall_dec", "ClassicalDedekindReals.sig_not_dec",
                   "FunctionalExtensionality.functional_extensionality_dep"]
 RULE = ("tie T: cancellation / additivity theorems of coq/Numeric/RipassoFacts.v re-checked against the transfer "
